@@ -49,3 +49,33 @@ func HarnessC09In(tableID, L int) {
 		vreach("C09.in.nocrc")
 	}
 }
+
+// HarnessC09Repeat: the same Demuxer sees a valid PAT and then, on the next continuity counter, a copy in which one
+// body byte is altered while table_id, section_length and the CRC_32 field are intact (every position, four masks):
+// the copy is never delivered as a table (the CRC check runs on every section, whatever was seen before)
+func HarnessC09Repeat() {
+	ps := mkPAT(0x1000)
+	ps.ext, ps.version = 0x1234, 7
+	ps.pat.TransportStreamID = 0x1234
+	u := mkPSI(0, 1, []*mSection{ps}, 0, 0)
+	p1 := packetize(u, 4, 184, true)
+	p2 := packetize(u, 5, 184, true)
+	vassert("C09.repeat.layout", len(p1) == 1 && len(p2) == 1)
+	secLen := len(u.bytes) - 1
+	// byte positions of the section inside the packet: 4 header bytes + pointer_field, then the section
+	pos := vrange(3, secLen-5) // behind table_id/section_length, before the CRC_32 field
+	// (concrete masks: with a symbolic byte the CRC comparison becomes a solver query that is only decided for short
+	// sections; acceptance => valid CRC for arbitrary bytes is HarnessC09In - this harness is about state across units)
+	x := byte(vchoose(0x01, 0x80, 0xff, 0x5a))
+	bad := append([]byte{}, p2[0]...)
+	bad[5+pos] ^= x
+	data := append(append([]byte{}, p1[0]...), bad...)
+	dmx, _ := newDmx(data)
+	d, err := dmx.NextData()
+	vassert("C09.repeat.first", err == nil && d != nil && d.PAT != nil && d.PAT.TransportStreamID == 0x1234)
+	d2, err2 := dmx.NextData()
+	vassert("C09.repeat.rejected", d2 == nil && err2 != nil && err2 != ErrNoMorePackets)
+	_, err3 := dmx.NextData()
+	vassert("C09.repeat.end", err3 == ErrNoMorePackets)
+	vreach("C09.repeat.end")
+}
